@@ -150,6 +150,13 @@ Theorem skeletons_cover :
 Proof. exact (@SkelGen.skeletons_cover). Qed.
 Print Assumptions skeletons_cover.
 
+Theorem census_covered :
+  forallb
+  (fun f : String.string =>
+  mem_str f (map fs_name all_skeletons) || mem_str f exempt_functions) census = true.
+Proof. exact (@SkelGen.census_covered). Qed.
+Print Assumptions census_covered.
+
 Theorem skeletons_all_well_locked :
   forallb well_locked all_skeletons = true.
 Proof. exact (@SkelGen.skeletons_all_well_locked). Qed.
